@@ -478,7 +478,7 @@ def run_cases(ctx, cases):
 
 
 def run(ctx):
-    run_cases(ctx, make_cases(ctx, ctx.scale(60, 1500)))
+    run_cases(ctx, make_cases(ctx, ctx.scale(30, 1500)))
 
 
 def search(ctx):
